@@ -769,9 +769,98 @@ static void wlInvokeDeep() {
   }
 }
 
+// A long chain of functors, each scheduling the next into the same set from inside its own body, started
+// by the owner thread on a pool whose workers are busy: the first ~32 links run inline (nested), the link
+// at the inline-depth limit has to be queued - and must still count for wait()/tryWait()/the destructor.
+struct DeepCtx {
+  dispenso::ConcurrentTaskSet* cts;
+  int depth;
+  int tags[64];
+};
+static DeepCtx* gd;
+static void deepLink(int i) {
+  TagInfo& t = tag(gd->tags[i]);
+  if (t.starts >= 1)
+    sim_fail("deep-chain:dup", "link %d ran twice", i);
+  tagStart(gd->tags[i]);
+  sim_work(1);
+  if (i + 1 < gd->depth)
+    gd->cts->schedule([i]() { deepLink(i + 1); });
+  sim_work(1);
+  tagFinish(gd->tags[i]);
+}
+static void wlBarrierDeep() {
+  tagsReset();
+  DeepCtx dc;
+  gd = &dc;
+  int nThreads = range(1, 2);
+  dc.depth = range(30, 44);
+  int fillers = range(2, 12);
+  bool heavy = chance(2, 3);
+  int endMode = (int)pick(3); // 0 wait, 1 tryWait loop, 2 destructor
+  sim_note("threads", nThreads);
+  sim_note("depth", dc.depth);
+  sim_note("heavy", heavy);
+  sim_note("end", endMode);
+  SimLatch release(1);
+  dispenso::ThreadPool pool((size_t)nThreads, (size_t)1);
+  {
+    dispenso::ConcurrentTaskSet cts(pool, heavy ? dispenso::TaskCost::kHeavy : dispenso::TaskCost::kLightweight);
+    dc.cts = &cts;
+    for (int i = 0; i < nThreads; ++i)
+      cts.schedule([&release]() { release.wait(); }, dispenso::ForceQueuingTag());
+    for (int i = 0; i < fillers; ++i) {
+      int tg = tagNew(90);
+      cts.schedule(
+          [tg]() {
+            tagStart(tg);
+            sim_work(1);
+            tagFinish(tg);
+          },
+          dispenso::ForceQueuingTag());
+    }
+    for (int i = 0; i < dc.depth; ++i)
+      dc.tags[i] = tagNew(91);
+    deepLink(0); // the owner thread runs the head of the chain itself
+    if (cts.tryWait(0)) {
+      for (int i = 0; i < tagCount(); ++i)
+        if (tag(i).finishes != 1)
+          sim_fail(heavy ? "deep-chain:CTS-heavy:running-at-tryWait" : "deep-chain:CTS-light:running-at-tryWait",
+                   "tryWait(0) reported completion while task %d has not finished (workers still parked)", i);
+    }
+    release.countDown();
+    auto all = [&](const char* how) {
+      for (int i = 0; i < tagCount(); ++i) {
+        if (tag(i).finishes != 1) {
+          char cls[96];
+          snprintf(cls, sizeof cls, "deep-chain:CTS-%s:%s-at-%s", heavy ? "heavy" : "light", tag(i).starts ? "running" : "not-run", how);
+          sim_fail(cls, "%s returned while task %d (api %d) has starts=%d finishes=%d", how, i, tag(i).api, tag(i).starts,
+                   tag(i).finishes);
+        }
+        tagObserve(i);
+      }
+    };
+    if (endMode == 0) {
+      cts.wait();
+      all("wait");
+    } else if (endMode == 1) {
+      for (int k = 0; k < 100000 && !cts.tryWait(1); ++k)
+        sim_work(1);
+      all("tryWait");
+    }
+  }
+  for (int i = 0; i < tagCount(); ++i)
+    if (tag(i).finishes != 1) {
+      char cls[96];
+      snprintf(cls, sizeof cls, "deep-chain:CTS-%s:%s-at-dtor", heavy ? "heavy" : "light", tag(i).starts ? "running" : "not-run");
+      sim_fail(cls, "destructor returned while task %d has starts=%d finishes=%d", i, tag(i).starts, tag(i).finishes);
+    }
+}
+
 } // namespace
 
-HX_WORKLOAD("C02", "barrier", wlBarrier, SF_ALL | SF_TSO, 4000000, 4000000, 1);
+HX_WORKLOAD("C02", "barrier", wlBarrier, SF_ALL | SF_TSO, 4000000, 4000000, 3);
+HX_WORKLOAD("C02", "barrier-deep", wlBarrierDeep, SF_ALL | SF_TSO, 2000000, 2000000, 1);
 HX_WORKLOAD("C04", "cancel", wlCancel, SF_ALL, 4000000, 4000000, 1);
 HX_WORKLOAD("C05", "throw", wlThrow, SF_ALL | SF_TSO, 4000000, 4000000, 1);
 HX_WORKLOAD("C47", "taskset-fq", wlFQ, SF_ALL, 4000000, 4000000, 1);
